@@ -136,6 +136,23 @@ def gen_C01(tier, rng):
                 np_ = conv_paths(c, r0, "E", depth)
                 dist["vars%d" % nv] += 1; dist["paths"] += np_
                 cases.append(c.done("%d/%s/%s" % (nv, tv, form), len(set(tv)) > 1))
+    # functions whose diagrams / normal forms are large: parities and threshold-like functions of 5-8 variables
+    def xor_e(a, b): return gen.O([gen.A([a, gen.Nn(b)]), gen.A([gen.Nn(a), b])])
+    for nv in ([5, 6, 7] if tier == "quick" else [5, 6, 7, 8, 9]):
+        vs = gen.NAMES[:nv]
+        par = gen.L(vs[0])
+        for x in vs[1:]: par = xor_e(par, gen.L(x))
+        maj = gen.O([gen.A([gen.L(x) for x in comb]) for comb in itertools.combinations(vs, (nv + 1) // 2)])
+        mixed = gen.A([xor_e(gen.L(vs[0]), gen.L(vs[1])), gen.O([xor_e(gen.L(vs[2]), gen.L(vs[3])), gen.L(vs[4])])] + [xor_e(gen.L(vs[i]), gen.L(vs[(i + 2) % nv])) for i in range(nv - 5)])
+        for nm, e in (("parity", par), ("notparity", gen.Nn(par)), ("majority", maj), ("mixed", mixed)):
+            c = Case("c01_%d" % n); n += 1
+            r0 = c.r("expr " + pe(e)); c.q("obs %d" % r0)
+            for path in ("B", "BE", "BET", "BT", "BTE", "T", "TE", "BEB", "BEBE"):
+                reg = r0
+                for tgt in path:
+                    reg = c.r("conv %s %d" % (tgt, reg)); c.q("obs %d" % reg)
+            dist["wide_%s" % nm] += 1
+            cases.append(c.done("%s%d" % (nm, nv), True))
     for _ in range(120 if tier == "quick" else 1200):
         names = gen.NAMES[: rng.randint(2, 7)]
         e = gen.rand_tree(rng, rng.randint(2, 6), names)
@@ -148,7 +165,7 @@ def gen_C01(tier, rng):
         dist["random_chain"] += 1
         cases.append(c.done(pe(e), True))
     return {"cases": cases, "exhaustive": True, "dist": dict(dist),
-            "rule": "every truth function of <= 3 variables as an expression (DNF/CNF/Shannon shapes; quick: one shape per 3-variable function) pushed through EVERY conversion path of length <= %d (2+4+..+2^k paths), full observation after each step; random trees through random chains of 3-10 conversions; non-trivial = non-constant function; distinct = (function, shape)" % depth}
+            "rule": "every truth function of <= 3 variables as an expression (DNF/CNF/Shannon shapes; quick: one shape per 3-variable function) pushed through EVERY conversion path of length <= %d (2+4+..+2^k paths), full observation after each step; parity / majority / xor-rich functions of 5-7 (9) variables through the diagram paths (large diagrams and normal forms); random trees through random chains of 3-10 conversions; non-trivial = non-constant function; distinct = (function, shape)" % depth}
 
 
 # ------------------------------------------------------------------ C03 / C04
@@ -179,10 +196,10 @@ def gen_C03(tier, rng):
         c = Case("c03_%d" % n); n += 1
         f = gen.expr_of_tv(vf, tf, "dnf"); g = gen.expr_of_tv(vg, tg, "cnf" if n % 2 else "dnf")
         rf = three_reps(c, f); rg = three_reps(c, g)
-        for x, y in zip(rf, rg):
+        for ki, (x, y) in enumerate(zip(rf, rg)):
             for op in OPS2:
-                r = c.r("op2 %s %s %d %d" % (op, FORMS[k % 3], x, y)); k += 1
-                c.q("obs %d" % r)
+                for form in (["val"] if ki == 0 else (["val", "ref"] if ki == 1 else FORMS)):
+                    r = c.r("op2 %s %s %d %d" % (op, form, x, y)); c.q("obs %d" % r)
             r = c.r("op1 not %d" % x); c.q("obs %d" % r)
         sf, sg = set(vf), set(vg)
         dist["align_%d_%d_%d" % (len(sf), len(sg), len(sf & sg))] += 1
@@ -213,7 +230,7 @@ def gen_C03(tier, rng):
         dist["random_large"] += 1
         cases.append(c.done(pe(f) + "|" + pe(g), True))
     return {"cases": cases, "exhaustive": True, "dist": dict(dist),
-            "rule": "every ordered pair of truth functions of <= 2 variables under every alignment of their variable sets inside a %d-name universe, x {and, or, xor, imply, iff} (+ not) x three representations, by-value / by-reference / in-place forms in rotation; sampled 3-variable pairs and random 5-8 input operands; non-trivial = the input sets differ and neither contains the other; distinct = aligned pair" % len(universe)}
+            "rule": "every ordered pair of truth functions of <= 2 variables under every alignment of their variable sets inside a %d-name universe, x {and, or, xor, imply, iff} (+ not) x three representations, every call form the representation has (by value; by reference for tables and diagrams; in place for diagrams); sampled 3-variable pairs and random 5-8 input operands; non-trivial = the input sets differ and neither contains the other; distinct = aligned pair" % len(universe)}
 
 
 def identity_histories(c, reg, kind, which):
@@ -532,8 +549,20 @@ def gen_C11(tier, rng):
         add(e, "size%d_sampled" % (upto + 1))
     for _ in range(300 if tier == "quick" else 3000):
         add(gen.rand_tree(rng, rng.randint(3, 5), gen.NAMES[: rng.randint(2, 5)], max_arity=3), "random")
+    # deep same-kind nesting (what the levelling operators never build): And in And in ..., Or in Or in ..., with one offending leaf
+    def nest(kinds_, leaf):
+        e = leaf
+        for k_ in reversed(kinds_):
+            e = (gen.A if k_ == "A" else gen.O if k_ == "O" else None)([e, gen.L("c")]) if k_ in "AO" else gen.Nn(e)
+        return e
+    offending = [gen.O([gen.L("a"), gen.L("b")]), gen.A([gen.L("a"), gen.L("b")]), gen.C(1), gen.Nn(gen.Nn(gen.L("a"))), gen.Nn(gen.A([gen.L("a"), gen.L("b")])), gen.L("a"), gen.Nn(gen.L("a"))]
+    for depth in (2, 3, 4):
+        for ks in itertools.product("AO", repeat=depth):
+            for leaf in offending:
+                add(nest(ks, leaf), "deep_nesting")
+                add(gen.A([nest(ks, leaf)]) if ks[0] == "A" else gen.O([nest(ks, leaf)]), "deep_nesting_unary")
     return {"cases": cases, "exhaustive": True, "dist": dict(dist),
-            "rule": "every expression tree with <= %d nodes over 3 names, constants, n-ary arities 0..3 (plus a sample of the next size and random deeper trees): to_nnf / to_cnf / to_dnf, the returned TREE compared with the model, truth vector and variables with the specification, is_nnf / is_cnf / is_dnf on inputs and results compared with the model's predicates (proved equal to the reference shapes); non-trivial = mixes And and Or or has an arity-0/1 node; distinct = tree" % upto}
+            "rule": "every expression tree with <= %d nodes over 3 names, constants, n-ary arities 0..3 (plus a sample of the next size, random deeper trees, and And/Or chains nested 2-4 deep around an offending leaf): to_nnf / to_cnf / to_dnf, the returned TREE compared with the model, truth vector and variables with the specification, is_nnf / is_cnf / is_dnf on inputs and results compared with the model's predicates (proved equal to the reference shapes); non-trivial = mixes And and Or or has an arity-0/1 node; distinct = tree" % upto}
 
 
 # ------------------------------------------------------------------ C15 / C20
@@ -642,7 +671,9 @@ def case_variants(w, full=True):
     return vs if full else [w, w.upper()] + ([w[0].upper() + w[1:]] if len(w) > 1 else [])
 
 
-def parse_cases(prefix, strings, per_case=60):
+def parse_cases(prefix, strings, per_case=60, rng=None):
+    if rng is not None:
+        strings = list(strings); rng.shuffle(strings)      # related strings meet in one process in arbitrary order
     cases = []
     for k in range(0, len(strings), per_case):
         c = Case("%s_%d" % (prefix, k // per_case))
@@ -697,7 +728,7 @@ def gen_C12(tier, rng):
         for w in WORDS:
             for pad in ["x", "_", "-", "1"]:
                 P(pad * n + w, "window_edge"); P(w + pad * n, "window_edge"); P(w + pad * n + " & a", "window_edge")
-    cases = parse_cases("c12", strings)
+    cases = parse_cases("c12", strings, rng=rng)
     return {"cases": cases, "exhaustive": True, "dist": dict(dist),
             "rule": "every token over the full alphabet (every operator/constant spelling in every letter case incl. the long s, identifiers embedding keywords, brace names, parentheses), every pair under three spacings, every triple over a reduced alphabet, Unicode whitespace, keyword/identifier window edges, random sentences of the grammar; tokenize / from_str / parse_tokens / to_string compared with the model (error variant and position included) and the parsed function and variable set with the reference reading; %d strings in %d cases; non-trivial = all; distinct = string" % (len(strings), len(cases))}
 
@@ -738,7 +769,7 @@ def gen_C13(tier, rng):
     for d in ([10, 100, 300] if tier == "quick" else [10, 100, 300, 600, 1000]):
         P("(" * d + "a" + ")" * d, "deep"); P("(" * d + "a" + ")" * (d - 1), "deep"); P("!" * d + "a", "deep"); P("a" + "&a" * d, "deep")
         P("(" * d + "a" + ")" * (d + 1), "deep"); P("{" * d + "a" + "}" * d, "deep")
-    cases = parse_cases("c13", strings)
+    cases = parse_cases("c13", strings, rng=rng)
     return {"cases": cases, "exhaustive": True, "dist": dict(dist),
             "rule": "malformed and arbitrary text: every keyword/symbol followed or preceded by each of ~70 boundary characters (Unicode whitespace, long s, Kelvin sign, dotless i, NUL, combining mark, emoji, ...), every string over '()a& ' up to length %d and over '(){}a!' up to length %d, every 3-token string over 17 dangerous tokens, token / ASCII / Unicode soup, valid sentences with one character deleted, inserted or swapped, nesting depth and negation prefixes up to %d; accept/reject compared with the reference grammar (through the model, proved equal to it), error variant and position with the model, any panic is a failure; %d strings; non-trivial = all; distinct = string" % (6 if tier == "quick" else 7, 5 if tier == "quick" else 6, 300 if tier == "quick" else 1000, len(strings))}
 
@@ -883,6 +914,11 @@ def gen_C16(tier, rng):
             rows = spelled([list(p) + [o] for p, o in zip(pts, outs)], SCHEMES[4])
             for header in (True, False):
                 for tag, t in csv_mutations(names, rows, header): add(t, "mut_" + tag)
+    # headerless text with 11 input columns: x_10 sorts before x_2, the column of each name matters
+    pts11 = list(itertools.product([0, 1], repeat=11))
+    rows11 = [list(p) + [1 if (p[2] and not p[10]) or (p[5] and p[9]) else 0] for p in pts11]
+    if tier != "quick": rng.shuffle(rows11)
+    add(csv_text([], spelled(rows11, SCHEMES[0]), False), "headerless_11_columns")
     for ncol in (1, 2, 62, 63, 64, 65, 66, 70, 130):
         hdr = ",".join(["v%d" % i for i in range(ncol - 1)] + ["result"])
         for t in (hdr, hdr + "\n", hdr + "\n" + ",".join(["1"] * ncol) + "\n", ",".join(["1"] * ncol) + "\n",
@@ -1012,8 +1048,22 @@ def gen_C20(tier, rng):
             if rng.random() < 0.3: c.q("nf %d" % rng.randint(0, r0))
         dist["history_streams"] += 1
         cases.append(c.done("hist%d" % n, True))
+    # parser history: a keyword-like identifier followed by the keyword itself (and back), in one process
+    suffixes = ["y", "_", "1", "hood", "-x", "B"]
+    seqs = []
+    for w in WORDS:
+        for v_ in case_variants(w, False):
+            for suf in suffixes:
+                seqs.append([v_ + suf + " & b", v_ + " | a", v_ + suf, v_, "(" + v_ + ")", v_ + suf + " | " + v_])
+    rng.shuffle(seqs)
+    for k_ in range(0, len(seqs), 6):
+        c = Case("c20_p%d" % (k_ // 6))
+        for sq in seqs[k_:k_ + 6]:
+            for s_ in sq: c.q("parse %s" % hexname(s_))
+        dist["parser_history"] += 1
+        cases.append(c.done(c.id, True))
     return {"cases": cases, "exhaustive": False, "dist": dict(dist),
-            "rule": "random programs as for C15; every instruction and every observation (structure, Debug form, enumerations incl. support order and sat point, CSV / rendered / printed text) is computed twice within one process and again in further separate processes with fresh hash seeds; all must be identical, and the operand registers are observed again after all later instructions, in shuffled order; plus streams of 40 short-lived expressions whose normal forms are computed and dropped at once (hidden caches keyed by addresses or earlier calls), plus a source scan for interior mutability; non-trivial = all; distinct = program"}
+            "rule": "random programs as for C15; every instruction and every observation (structure, Debug form, enumerations incl. support order and sat point, CSV / rendered / printed text) is computed twice within one process and again in further separate processes with fresh hash seeds; all must be identical, and the operand registers are observed again after all later instructions, in shuffled order; plus parser histories (an identifier that starts with a keyword, then the keyword itself, for every keyword spelling), plus streams of 40 short-lived expressions whose normal forms are computed and dropped at once (hidden caches keyed by addresses or earlier calls), plus a source scan for interior mutability; non-trivial = all; distinct = program"}
 
 
 GENERATORS.update({"C20": gen_C20})
